@@ -409,6 +409,39 @@ def vary_extra(rng, x):
     return e
 
 
+def gen_sensitive_sequence(rng):
+    """a template whose conditions, Fn::If branches and resource gating DO depend on one key K (a pseudo parameter, an undeclared
+    name or a declared parameter), and a list of parameter assignments that differ exactly in K (other keys stay put):
+    {"template", "extras"} for SequenceE2ESurface"""
+    x = gen_condition_template(rng, rng.randint(1, 3))
+    t = x["template"]
+    kind = rng.choice(["pseudo", "pseudo", "undeclared", "declared"])
+    if kind == "pseudo":
+        K = rng.choice(PSEUDO_NAMES)
+    elif kind == "undeclared":
+        K = rng.choice(["Stage", "Z9", "Flavour"])
+    else:
+        K = "Knob"
+        t.setdefault("Parameters", {})["Knob"] = {"Type": "String", "Default": rng.choice(["v0", "v1"])}
+    v1, v2 = rng.sample(["v1", "v2", "eu-west-1", "us-east-1", "999", "aws-cn", "prod"], 2)
+    ref = rng.choice([{"Ref": K}, {"Fn::Sub": "${" + K + "}"}, {"Fn::Join": ["", [{"Ref": K}]]}])
+    conds = t.setdefault("Conditions", {})
+    conds["OnK"] = {"Fn::Equals": [ref, v1]}
+    conds["NotOnK"] = {"Fn::Not": [{"Condition": "OnK"}]}
+    if rng.random() < 0.5:
+        conds["DeepOnK"] = {"Fn::And": [{"Condition": "NotOnK"}, {"Fn::Equals": [{"Ref": K}, v2]}]}
+    cn = rng.choice(list(conds))
+    t["Resources"]["Gated"] = {"Type": "Custom::Gated", "Condition": rng.choice(["OnK", "NotOnK"]), "Properties": {"A": {"Ref": K}}}
+    t["Resources"]["Branch"] = {"Type": rng.choice(["Custom::Branch", "AWS::SQS::Queue"]), "Properties": {
+        "P": {"Fn::If": [rng.choice(["OnK", "NotOnK", cn]), "yes-" + v1, {"Ref": "AWS::NoValue"} if rng.random() < 0.3 else "no"]},
+        "Q": [{"Fn::If": [cn, {"Fn::Sub": "${" + K + "}-x"}, "else"]}]}}
+    base = {k: v for k, v in x["extra"].items() if k != K}
+    seq = [dict(base, **{K: v}) for v in rng.sample([v1, v2, v1, "third"], rng.choice([2, 3, 4]))]
+    if rng.random() < 0.4:
+        seq.insert(rng.randrange(len(seq) + 1), dict(base))
+    return {"template": t, "extras": seq}
+
+
 class SequenceE2ESurface(E2ESurface):
     """history: ONE parsed model resolved with several parameter assignments in a row (x["extras"]); every answer must be the one
     a fresh parse gives -- a memo keyed on part of the inputs, or state left behind by the first call, shows here"""
